@@ -25,6 +25,7 @@ class Driver:
         from . import fsmworld
         self.w = fsmworld.FSMWorld()
         self.max_sub, self.max_data, self.max_reset = max_sub, max_data, max_reset
+        self.prios = PRIOS
 
     def reset(self):
         w = self.w
@@ -61,7 +62,7 @@ class Driver:
             evs.append(('deliver', t.tid))
         if self.sub is None and self.nsub < self.max_sub:
             for flavor in ('api', 'legacy'):
-                for prio in PRIOS:
+                for prio in self.prios:
                     evs.append(('s1', flavor, prio))
         if self.sub is not None and self.sub[3]:
             evs.append(('s3',))
@@ -217,6 +218,8 @@ def drain(dr, report):
 def job(args):
     tier, seed, max_sub, max_data, max_reset = args
     dr = Driver(max_sub, max_data, max_reset)
+    if tier == 'quick':
+        dr.prios = ('now', 'todo_empty')
     viol = {}
 
     def build(hist, report=None):
@@ -238,37 +241,46 @@ def job(args):
         return report
 
     k0 = build([])
-    parent = {k0: None}
-    hist_of = {k0: []}
-    frontier = collections.deque([k0])
-    transitions_n = probes = 0
-    while frontier:
-        k = frontier.popleft()
-        h = hist_of.pop(k)
+    probes = [0]
+
+    def expand(h):
+        found = []
+
+        def rec2(hh):
+            def report(sig, what):
+                found.append((sig, what, [list(e) for e in hh]))
+            return report
+
         build(h)
         evs = dr.enabled()
         if dr.booted:
-            probe_illegal(dr, rec(h))
-            probes += 1
+            probe_illegal(dr, rec2(h))
             build(h)
-            drain(dr, rec(h))
+            drain(dr, rec2(h))
+        succ = []
         for ev in evs:
-            nk = build(h + [ev], rec(h + [ev]))
-            transitions_n += 1
-            if nk not in parent:
-                parent[nk] = (k, ev)
-                hist_of[nk] = h + [ev]
-                frontier.append(nk)
-    return {'states': len(parent), 'transitions': transitions_n, 'probes': probes,
+            nk = build(h + [ev], rec2(h + [ev]))
+            succ.append((nk, ev))
+        return succ, found
+
+    from . import explore
+    res = explore.replay_bfs(expand, k0)
+    for sig, what, hist in res['violations']:
+        v = viol.setdefault(sig, {'what': what, 'replay': {'history': hist,
+                                                          'bounds': [max_sub, max_data, max_reset]}, 'count': 0})
+        v['count'] += 1
+        if len(hist) < len(v['replay']['history']):
+            v['what'], v['replay']['history'] = what, hist
+    return {'states': res['states'], 'transitions': res['transitions'], 'probes': res['states'],
             'violations': viol, 'bounds': [max_sub, max_data, max_reset],
-            'digest': common.digest(sorted(repr(k) for k in parent))}
+            'digest': common.digest(sorted(repr(k) for k in res['keys']))}
 
 
 def run(ctx):
     jobs = [(ctx.tier, ctx.seed, 2, 1, 1)] if ctx.quick() else [(ctx.tier, ctx.seed, 2, 2, 1), (ctx.tier, ctx.seed, 3, 1, 2)]
     states = transitions_n = 0
     per = []
-    for r in common.pmap(job, jobs):
+    for r in [job(j) for j in jobs]:
         states += r['states']
         transitions_n += r['transitions']
         for sig, v in r['violations'].items():
